@@ -54,7 +54,11 @@ func runRace(c RaceCase) *ev.Failure {
 			return ev.Failf("harness-park", "connection %d: the reader did not park", i)
 		}
 		if c.Term == "garbage-notifier-running" {
-			ch := conn.(diam.CloseNotifier).CloseNotify()
+			ch, bf := requestCh(conn.(diam.CloseNotifier))
+			if bf != nil {
+				mc.Close()
+				return bf
+			}
 			mc.Feed(appMessage(0, false)) // read by the reader, which then starts the notifier routine
 			for k := 0; k < c.Skew+3; k++ {
 				runtime.Gosched()
@@ -70,6 +74,7 @@ func runRace(c RaceCase) *ev.Failure {
 		}
 		start := make(chan struct{})
 		var ch <-chan struct{}
+		var blocked *ev.Failure
 		var wg sync.WaitGroup
 		wg.Add(2)
 		go func() {
@@ -78,7 +83,7 @@ func runRace(c RaceCase) *ev.Failure {
 			for k := 0; k < -c.Skew; k++ {
 				runtime.Gosched()
 			}
-			ch = conn.(diam.CloseNotifier).CloseNotify()
+			ch, blocked = requestCh(conn.(diam.CloseNotifier))
 		}()
 		go func() {
 			defer wg.Done()
@@ -97,8 +102,17 @@ func runRace(c RaceCase) *ev.Failure {
 		}()
 		close(start)
 		wg.Wait()
+		if blocked != nil {
+			mc.Close()
+			return blocked
+		}
 		ok := closedWithin(ch, promptly)
-		again := closedWithin(conn.(diam.CloseNotifier).CloseNotify(), promptly)
+		againCh, bf := requestCh(conn.(diam.CloseNotifier))
+		if bf != nil {
+			mc.Close()
+			return bf
+		}
+		again := closedWithin(againCh, promptly)
 		mc.Close()
 		if !ok || !again {
 			return ev.Failf("never-fired", "connection %d of %d: the first CloseNotify request and the termination (%s) were released at the same instant; the channel it returned was closed within %v: %v, a later request's channel: %v", i, c.N, c.Term, promptly, ok, again)
